@@ -2,7 +2,7 @@
 # usage: tools/try_seed.sh <seed dir with patch.diff> <PROP> [tier]
 # Applies a seeded change to /repo, runs the check, reverts the change. Never commits anything in /repo.
 set -u
-D="$1"; P="$2"; T="${3:-quick}"
+D="$(cd "$1" && pwd)"; P="$2"; T="${3:-quick}"
 cd /repo || exit 2
 if ! git diff --quiet; then echo "/repo has uncommitted changes"; exit 2; fi
 if ! git apply --check "$D/patch.diff" 2>/dev/null; then echo "patch does not apply: $D"; exit 2; fi
